@@ -324,6 +324,15 @@ func runC18(b *runner.Batch) {
 		for _, n := range []int{0, 1, 254, 255, 256, 300} {
 			c.judgeData(tTXT, rep("t", n), n <= 255, n <= 255, fmt.Sprintf("txt-len%d", n))
 		}
+		// the limit counts bytes, not characters (seeded change C18-8): two- and three-byte characters around 255 bytes,
+		// and bytes that are no UTF-8 at all
+		for _, t := range []struct {
+			s  string
+			ok bool
+		}{{rep("é", 127), true}, {rep("é", 127) + "a", true}, {rep("é", 128), false}, {rep("€", 85), true}, {rep("€", 86), false}, {rep("€", 255), false},
+			{"\xff\xfe\xfd", true}, {rep("\xff", 255), true}, {rep("\xff", 256), false}, {"a\x00b", true}} {
+			c.judgeData(tTXT, t.s, t.ok, t.ok, fmt.Sprintf("txt-multibyte-%dbytes", len(t.s)))
+		}
 		b.Hit("txt-and-cname-boundaries")
 	}
 	if k == 1 {
@@ -493,7 +502,7 @@ func init() {
 		ID: "C11", Level: "exploration",
 		Rule:        "PRNG histories with evolving ownership (transfers, admin changes, expiry and re-registration by somebody else); every step draws a mutating NNS method, a target name and a role {owner, admin, former owner, former admin, parent owner, parent admin, stranger, committee majority, Alphabet (differs from the majority for 3 and 7 keys), single member, nobody}; arguments are valid so that authorisation alone decides; the model computes who may perform the call now and the call must take effect or be inert (no storage diff, no notification) accordingly. distinct = (method, signers, reason, outcome).",
 		Assumptions: tb,
-		Batches:     tier(192, 2048), Helpers: []string{"holder"}, Chunk: 8,
+		Batches:     tier(192, 2048), Helpers: []string{"holder", "registrar"}, Chunk: 8,
 		Floors: []string{"addRecord:accepted-by-owner", "addRecord:accepted-by-admin", "addRecord:refused-by-former-owner", "addRecord:refused-by-former-admin", "addRecord:refused-by-stranger", "addRecord:refused-by-parent-owner",
 			"admin-dismissed", "transfer:accepted-by-owner", "transfer:refused-by-admin", "setAdmin:accepted-by-owner+new-admin", "setAdmin:refused-by-owner-without-new-admin", "setAdmin:refused-by-admin+new-admin",
 			"renew:accepted-by-owner", "renew:accepted-by-admin", "renew:refused-by-stranger", "renew:accepted-by-committee", "renew:refused-by-alphabet", "updateSOA:refused-by-stranger", "deleteRecords:accepted-by-admin", "deleteRecords:refused-by-stranger", "setRecord:refused-by-stranger",
